@@ -151,3 +151,62 @@ func vxH_C01_mergerStep() { vxMergerStep(vxOpsSetDel, nil, false) }
 
 // vxH_C08_mergerStep: Set/Del/Merge with the appending operator.
 func vxH_C08_mergerStep() { vxMergerStep(vxOpsAll, vxAppendMO{}, true) }
+
+func init() { vxRegister("vxH_C01_partialMerge", vxH_C01_partialMerge) }
+
+// vxH_C01_partialMerge: a merger cycle that merges only the upper part of
+// the stack (MinMergePercentage: an older, bigger segment stays as it is
+// and the smaller newer ones are merged on top of it). Pre-state: an
+// optional lower level, a big segment with operations on "k" and "z" in
+// the mid section, two one-operation segments on "k" (Set or Del, symbolic)
+// in the top section. After one plain merger cycle every read equals the
+// reference; the witness observation shows that the cycle really kept the
+// big segment unmerged.
+func vxH_C01_partialMerge() {
+	ci, _ := NewCollection(CollectionOptions{})
+	c := ci.(*collection)
+	var layers [][]vxEnt
+	if vxChoose(2) == 1 {
+		ents := vxFixedSegW(vxOpsSetDel, 0)
+		layers = append(layers, ents)
+		c.lowerLevelSnapshot = NewSnapshotWrapper(&segmentStack{options: c.options, refs: 1, a: []Segment{vxSegOf(ents)}}, nil)
+	}
+	big := vxFixedSegW(vxOpsSetDel, 2)
+	layers = append(layers, big)
+	mid := &segmentStack{options: c.options, refs: 1, a: []Segment{vxSegOf(big)}}
+	mid.lowerLevelSnapshot = c.lowerLevelSnapshot.addRef()
+	c.stackDirtyMid = mid
+	top := &segmentStack{options: c.options, refs: 1, numBatches: 2}
+	for s := 0; s < 2; s++ {
+		ents := vxFixedSegW(vxOpsSetDel, 0)
+		layers = append(layers, ents)
+		top.a = append(top.a, vxSegOf(ents))
+	}
+	c.stackDirtyTop = top
+	c.Start()
+	c.NotifyMerger("go", true)
+	vxQuiesce()
+	c.m.Lock()
+	h := 0
+	if c.stackDirtyMid != nil {
+		h = len(c.stackDirtyMid.a)
+	}
+	c.m.Unlock()
+	vxObserveInt("mid-height-after-cycle", h)
+	vxAssert("witness-the-cycle-was-a-partial-merge", h == 2)
+	snap, err := c.Snapshot()
+	vxAssert("snapshot-ok", err == nil)
+	for _, kb := range []byte{'k', 'z'} {
+		var K vxKey
+		K.n, K.b[0] = 1, kb
+		got, gerr := snap.Get([]byte{kb}, ReadOptions{})
+		vxAssert("snapshot-get-ok", gerr == nil)
+		vxAssert("merger-cycle-keeps-reads", vxGotIs(got, vxRefGet(K, layers...)))
+		cgot, cerr := c.Get([]byte{kb}, ReadOptions{})
+		vxAssert("collection-get-ok", cerr == nil)
+		vxAssert("merger-cycle-keeps-reads-collection-get", vxGotIs(cgot, vxRefGet(K, layers...)))
+	}
+	vxCheckIteration("after-cycle", snap, layers)
+	snap.Close()
+	c.Close()
+}
